@@ -527,6 +527,8 @@ impl Worker {
         #[cfg(cadence_verif)]
         crate::verif::point("queuing.stop.flagged");
         let _ = self.wake_sender.try_send(());
+        #[cfg(cadence_verif)]
+        crate::verif::point("queuing.stop.signalled");
     }
 
     // Stop reading events from the channel and wait for the "stopped" flag
